@@ -3,6 +3,7 @@ package main
 // Calls: contracts, inlining, builtins, lock primitives; static write-set analysis for loop havoc.
 
 import (
+	"os"
 	"strconv"
 	"fmt"
 	"go/token"
@@ -488,10 +489,81 @@ func (fr *Frame) applyModifies(st *State, fc *FuncContract, env *Env, view strin
 	penv := *env
 	penv.st = st.Clone()
 	for _, m := range fc.modifiesFor(view) {
+		// `modifies ptrof(x, "T").f...` names a location only when x holds a T: the havoc is guarded by istype(x, "T")
+		// (otherwise ptrof denotes an arbitrary address and the clause would havoc an unrelated object)
+		var guard string
+		if arg, tname, ok := findPtrof(m); ok {
+			// the payload of an interface holding a struct VALUE is the address of its boxed copy: ptrof(x, "*T") is used
+			// for both dynamic types T and *T
+			var gs []string
+			for _, tn := range []string{tname, strings.TrimPrefix(tname, "*")} {
+				func() {
+					defer func() { _ = recover() }()
+					g := penv.eval(&ECall{Fn: &EIdent{Name: "istype"}, Args: []Expr{arg, &EStr{Val: tn}}}, nil)
+					if len(g.C) == 1 {
+						gs = append(gs, g.C[0])
+					}
+				}()
+			}
+			if len(gs) == 2 {
+				guard = orAll(gs...)
+			}
+		}
+		var before map[string]string
+		if guard != "" {
+			before = map[string]string{}
+			for _, k := range vc.sortedHeapKeys() {
+				if k != "top" && k != "held" {
+					vc.hget(st, k, vc.heapSorts[k]) // make the current version explicit (heap entries are created on first use)
+				}
+			}
+			for k, v := range st.heap {
+				before[k] = v
+			}
+		}
 		if err := fr.havocTarget(st, m, &penv); err != nil {
 			vc.prog.specErrors = append(vc.prog.specErrors, fmt.Sprintf("%s:%d: modifies %s: %v", fc.File, fc.Line, m.String(), err))
 		}
+		if guard != "" {
+			for _, k := range vc.sortedHeapKeys() {
+				nv, ok := st.heap[k]
+				ov, had := before[k]
+				if !had {
+					ov = vc.heapInit(k) // not written before this call: the initial version
+				}
+				if !ok || nv == ov {
+					continue
+				}
+				n := vc.fresh(k, vc.heapSorts[k])
+				vc.axiom("(= " + n + " (ite " + guard + " " + nv + " " + ov + "))")
+				st.heap[k] = n
+			}
+		}
 	}
+}
+
+// findPtrof returns the first ptrof(x, "T") application inside a modifies target.
+func findPtrof(e Expr) (Expr, string, bool) {
+	switch x := e.(type) {
+	case *ECall:
+		if id, ok := x.Fn.(*EIdent); ok && id.Name == "ptrof" && len(x.Args) == 2 {
+			if s, ok := x.Args[1].(*EStr); ok {
+				return x.Args[0], s.Val, true
+			}
+		}
+		for _, a := range x.Args {
+			if r, t, ok := findPtrof(a); ok {
+				return r, t, true
+			}
+		}
+	case *ESel:
+		return findPtrof(x.X)
+	case *EIndex:
+		return findPtrof(x.X)
+	case *ESlice:
+		return findPtrof(x.X)
+	}
+	return nil, "", false
 }
 
 func (fr *Frame) havocTarget(st *State, m Expr, env *Env) (err error) {
